@@ -192,7 +192,8 @@ _dispatch_transform_detect_utf(dispatch_data_t data)
 	dispatch_data_t subrange = _dispatch_data_subrange_map(data, &p, 0, 2);
 
 	if (subrange == NULL) {
-		return NULL;
+		// too short to hold a UTF-16 byte order mark: no BOM, hence UTF-8
+		return DISPATCH_DATA_FORMAT_TYPE_UTF8;
 	}
 
 	const uint16_t ch = *(const uint16_t *)p;
